@@ -8,7 +8,7 @@
 mod factorize;
 mod search;
 
-pub use factorize::{factorize, Factors};
+pub use factorize::{factorize, Factors, MAX_COMPLEXITY};
 pub use search::search;
 
 pub(crate) use search::search_internal;
